@@ -237,7 +237,7 @@ def run(rep: common.Reporter, tier: str, kinds: Optional[set] = None, depth: Opt
     steps = 0
     with mp.Pool(16) as pool:
         jobs = [(ch, hosts, True) for ch in common.chunked(list(enumerate(behs)), 200)]
-        for st, out in pool.imap_unordered(_chunk, jobs):
+        for st, out in common.gmap(pool, rep, _chunk, jobs):
             steps += st
             for kind, fp, msg, host, att, beh in out:
                 if kind == 'machinery':
